@@ -817,11 +817,6 @@ impl<'a> VisitMut for Rw<'a> {
                         *e = Expr::Verbatim(quote!(__vx_enumerate(#recv)));
                         self.rule("R5");
                     }
-                    ("zip", 1) => {
-                        let a = args[0];
-                        *e = Expr::Verbatim(quote!(__vx_zip(#recv, #a)));
-                        self.rule("R5");
-                    }
                     ("write_str", 1) => {
                         let a = args[0];
                         *e = Expr::Verbatim(quote!(__vx_write_str(#recv, #a)));
